@@ -197,6 +197,15 @@ def class_behaviour(rng, alg, fam, pattern):
             cmds.append("hsubw %d 1 %d %d %d e" % (c, bufid + c, c * 11, rng.randrange(1, B)))
         for c in range(k):
             cmds.append("hsubw %d 2 %d %d %d e" % (c, bufid + c, 7000 + c * 11, rng.choice([2 * B, 3 * B + 1, B + B // 2])))
+    elif pattern == "overfill":     # many more streaming contexts than lanes, never a flush between the pieces
+        n = min(40, 3 * L + 3)
+        cmds.append("hmgr %s %s %d" % (alg, fam, n))
+        for c in range(n):          # short FIRST pieces: buffered, no lane used
+            cmds.append("hsub %d 1 %d %d %d e" % (c, bufid + c, c * 13, 1 + (c * 7) % (B - 1)))
+        for c in range(n):          # each UPDATE completes the buffered block and carries more: lanes fill up and turn over
+            cmds.append("hsubw %d 0 %d %d %d e" % (c, bufid + c, 3000 + c * 13, B + (c % 3) * B + c))
+        for c in range(n):
+            cmds.append("hsubw %d 2 %d %d %d e" % (c, bufid + c, 9000 + c * 13, c % 5))
     elif pattern == "longlane":     # one lane holds a single segment of >= 2^31 bytes while the others turn over short jobs
         if L < 2:
             return class_behaviour(rng, alg, fam, "equal")
@@ -237,7 +246,7 @@ def longlane_behaviour(rng, alg, fam, a, b, biglen=None, drain=False):
     return cmds
 
 
-CLASS_PATTERNS = ["equal", "minlane", "flushk", "stream1", "reuse", "drainreuse", "threetrip", "longlane"]
+CLASS_PATTERNS = ["equal", "minlane", "flushk", "stream1", "reuse", "drainreuse", "threetrip", "longlane", "overfill"]
 
 
 def job_behaviour(rng, alg, fam):
